@@ -174,8 +174,10 @@ def gen_case(seed, tier, idx):
         spec = gen_wb(rnd, tier)
         kind = "wb-root"
     tail = rnd.choice([0, 0, 40, 80])
-    return {"engine": "hier", "kind": kind + ("+random" if tail else ""), "cfg": spec, "tail": tail,
-            "seed": rnd.randrange(1 << 30)}
+    seed2 = rnd.randrange(1 << 30)
+    b2b = int(kind == "wb-root" and rnd.random() < 0.4)
+    return {"engine": "hier", "kind": kind + ("+b2b" if b2b else "") + ("+random" if tail else ""), "cfg": spec,
+            "tail": tail, "seed": seed2, "b2b": b2b}
 
 
 # ------------------------------------------------------------------------------------------------
@@ -571,6 +573,7 @@ def run_impl(case):
             ratio = dw // g
             gb = ratio.bit_length() - 1
             nadr = 1 << spec["aw"]
+            b2b = bool(case.get("b2b"))
 
             def drive(cyc, stb, we, adr, sel, dat_w):
                 ctx.set(bus.cyc, cyc); ctx.set(bus.stb, stb); ctx.set(bus.we, we)
@@ -598,16 +601,20 @@ def run_impl(case):
                             drive(1, 1, we, adr, 1 << lane, wd)
                             if ctx.get(bus.ack):
                                 acked = True; rdat = S.uget(ctx, bus.dat_r)
-                                drive(0, 0, we, adr, 1 << lane, wd)
-                                sample([0, 0, we, adr, 1 << lane, wd], False)
+                                if b2b:      # a registered master: request held through the acknowledge cycle
+                                    sample([1, 1, we, adr, 1 << lane, wd], True)
+                                else:
+                                    drive(0, 0, we, adr, 1 << lane, wd)
+                                    sample([0, 0, we, adr, 1 << lane, wd], False)
                             else:
-                                sample([1, 1, we, adr, 1 << lane, wd], False)
+                                sample([1, 1, we, adr, 1 << lane, wd], b2b and k == ratio + 3)
                             await ctx.tick()
                             if acked:
                                 break
-                        drive(0, 0, 0, adr, 0, 0)
-                        sample([0, 0, 0, adr, 0, 0], True)
-                        await ctx.tick()
+                        if not b2b:      # back-to-back: the next transfer is presented in the very next cycle
+                            drive(0, 0, 0, adr, 0, 0)
+                            sample([0, 0, 0, adr, 0, 0], True)
+                            await ctx.tick()
                         transfers.append([(adr << gb) | lane, we, t0, len(rows_in), int(acked), rdat if rdat is not None else 0, wd])
             for _ in range(case.get("tail", 0)):
                 set_mock()
